@@ -195,6 +195,11 @@ func Validator(c *Ctx) error {
 	if !c.Thorough() {
 		cn = cn[:9]
 	}
+	// multi-byte names whose first difference is a continuation byte
+	cn = append(cn, "\xc3\xa8", "\xe4\xb8\x96", "\xe4\xb8\x97", "\xc3\xa9a")
+	if !c.Thorough() {
+		cn = append(cn, "\xc3\xa9")
+	}
 	for _, x := range cn {
 		paths = append(paths, x)
 		for _, y := range cn {
